@@ -137,6 +137,8 @@ def cmp_constraints(cond, truth, subst=None, ren=None):
     a = linearize(cond, subst, ren)
     if a is not None and not truth:
         return [a, a.scale(-1)]  # v == 0
+    if a is not None and truth and cond["k"] in ("ref", "call", "member", "sub", "un", "bin"):
+        return [("ne", a)]       # v != 0
     return []
 
 
